@@ -470,3 +470,10 @@ package rag
 //@   loop 0:
 //@     step position_advances_by_bytes: position == prev(position) + len(block.Text) + (i < len(blocks) - 1 ? 2 : 0)
 //@     step boundary_after_the_block_is_at_the_position: len(boundaries) > prev(len(boundaries)) && boundaryType != BoundaryNone ==> boundaries[len(boundaries)-1].Position == position
+
+// ---- C13: merging a too-small trailing piece into the previous chunk keeps that chunk within the hard maximum (the
+// separator the merge inserts counts) ----
+//@ func (*Chunker) splitSectionByParagraphs
+//@   property C13
+//@   flags callsites
+//@   callsite countWords(s) requires merged_chunk_within_the_limit: len(s) <= c.config.MaxChunkSize
